@@ -267,6 +267,13 @@ fn run_history(s: &Session, fresh_probe: &[String], r: &mut CaseResult) -> (usiz
         eval.set_print_handler(&printer);
         eval.set_loader(&loader);
         sl::setup_eval(&mut eval, &cfg);
+        // a cancellation request is pending during some steps (chosen from the step text): short modules are then ended by
+        // the check at the end of the evaluation, longer ones by the periodic check - one more way for an evaluation to fail
+        let cancel = std::rc::Rc::new(std::cell::Cell::new(false));
+        {
+            let c2 = cancel.clone();
+            eval.set_check_cancelled(Box::new(move || c2.get()));
+        }
         let files: Vec<(&str, &str)> = s.steps.iter().map(|(n, t)| (n.as_str(), t.as_str())).chain([("probe.star", PROBE), ("marker.star", "MARKER = [1, 2, 3]\n"), ("hostile.star", HOSTILE_LIB)]).collect();
         let mut last_failed = false;
         // a module variable defined before anything can fail
@@ -278,7 +285,9 @@ fn run_history(s: &Session, fresh_probe: &[String], r: &mut CaseResult) -> (usiz
                 Err(_) => continue, // syntactically invalid: C05's domain
             };
             sl::tx_reset();
+            cancel.set(fnv(src.as_bytes()) % 6 == 0);
             let res = eval.eval_module(ast, sl::globals());
+            cancel.set(false);
             match res {
                 Ok(_) => {
                     if last_failed {
@@ -470,7 +479,7 @@ impl Prop for C07 {
         (10, 500)
     }
     fn rule(&self) -> String {
-        "Case = history of 1..8 evaluations on ONE evaluator+module. Each step is (a) a call of a global function or of a method of a builtin value (all names discovered at run time from Globals::names and dir() of 20 receivers) with argument tuples from a hostile pool (extreme ints around +-2^31/2^63/2^200, bounded repeat counts, None, floats incl. nan/inf, empty/nested/self-containing containers, records/enums/types/functions, wrong arities, unknown/duplicated/non-string keywords via **), (b) an operator, index, slice, attribute, assignment, unpacking, loop, comprehension or formatting over the same pool, (c) a failure at a generated depth inside nested calls / comprehensions / native callbacks, or (d) a type-directed program in which proptest replaced constants by pool values. Oracle (validity): every evaluation returns Ok or Err, no panic/abort (worker isolation); ErrorKind::Internal is a violation; an error's span lies in one of the evaluated files on char boundaries, call-stack frames resolve, Display works; after every Err call_stack_count() == 0, a fixed probe program gives the same transcript as on a fresh evaluator, and a module variable defined earlier is intact. Resource-limit errors are legal outcomes. evaluations = evaluation steps. Non-trivial = the history contains a failure followed by a successful evaluation; distinct = distinct history text.".into()
+        "Case = history of 1..8 evaluations on ONE evaluator+module. Each step is (a) a call of a global function or of a method of a builtin value (all names discovered at run time from Globals::names and dir() of 20 receivers) with argument tuples from a hostile pool (extreme ints around +-2^31/2^63/2^200, bounded repeat counts, None, floats incl. nan/inf, empty/nested/self-containing containers, records/enums/types/functions, wrong arities, unknown/duplicated/non-string keywords via **), (b) an operator, index, slice, attribute, assignment, unpacking, loop, comprehension or formatting over the same pool, (c) a failure at a generated depth inside nested calls / comprehensions / native callbacks, (c') a cancellation request pending during one step in six (ended by the end-of-evaluation or the periodic check), or (d) a type-directed program in which proptest replaced constants by pool values. Oracle (validity): every evaluation returns Ok or Err, no panic/abort (worker isolation); ErrorKind::Internal is a violation; an error's span lies in one of the evaluated files on char boundaries, call-stack frames resolve, Display works; after every Err call_stack_count() == 0, a fixed probe program gives the same transcript as on a fresh evaluator, and a module variable defined earlier is intact. Resource-limit errors are legal outcomes. evaluations = evaluation steps. Non-trivial = the history contains a failure followed by a successful evaluation; distinct = distinct history text.".into()
     }
     fn assumptions(&self) -> Vec<String> {
         vec![
